@@ -21,8 +21,11 @@ def main():
                 continue
             seen.add(k)
             out.append(e)
-    with open(os.path.join(common.VERIF_DIR, "known_findings.json"), "w") as f:
+    dst = os.path.join(common.VERIF_DIR, "known_findings.json")
+    tmp = dst + f".tmp{os.getpid()}"
+    with open(tmp, "w") as f:
         json.dump({"findings": out}, f, indent=1)
+    os.replace(tmp, dst)   # atomic: checks running concurrently never see a partial file
     print(f"known_findings.json: {len(out)} entries "
           f"({sum(1 for e in out if e.get('status') == 'open')} open)")
 
